@@ -456,3 +456,30 @@ func ReachableWithout(from, to ssa.Instruction, avoid func(ssa.Instruction) bool
 	}
 	return walk(blk, idx)
 }
+
+// ReturnValues returns the values a Return instruction yields, looking through the spill cells go/ssa introduces
+// for functions with defers (results are stored to a local, deferred calls run, then the local is re-loaded).
+func ReturnValues(ret *ssa.Return) []ssa.Value {
+	out := make([]ssa.Value, len(ret.Results))
+	for i, r := range ret.Results {
+		out[i] = r
+		ld, ok := r.(*ssa.UnOp)
+		if !ok || ld.Op != token.MUL {
+			continue
+		}
+		al, ok := ld.X.(*ssa.Alloc)
+		if !ok {
+			continue
+		}
+		// last store to the cell in the returning block before the load
+		for _, in := range ret.Block().Instrs {
+			if in == ssa.Instruction(ld) {
+				break
+			}
+			if st, ok := in.(*ssa.Store); ok && st.Addr == ssa.Value(al) {
+				out[i] = st.Val
+			}
+		}
+	}
+	return out
+}
